@@ -135,6 +135,80 @@ async def realise(ctx, sq, n, ops, rnd):
     return {'ev': ev, 'ops': ops, 'early': bool(first), 'csent': len(csent), 'ssent': len(ssent)}
 
 
+async def realise_reset(ctx, sq, n, rnd):
+    """The server stops reading, the client keeps sending until Squid's write towards the server is blocked; then, while
+    Squid is stopped (SIGSTOP, which only makes the interleaving deterministic), the server writes its last bytes Y and
+    closes abortively (unread input => RST); Squid continues and finds "Y readable" and "connection reset" together.
+    Y was sent by the closing side before it closed: the client must receive all of it before its EOF."""
+    import signal
+    st = {'writer': None, 'ready': asyncio.Event(), 'reader': None}
+
+    async def handle(reader, writer):
+        st['writer'], st['reader'] = writer, reader
+        writer.transport.pause_reading()              # never read what the client sends
+        st['ready'].set()
+        try:
+            await asyncio.sleep(30)
+        except asyncio.CancelledError:
+            pass
+    server = await asyncio.start_server(handle, '127.0.0.1', 0)
+    port = server.sockets[0].getsockname()[1]
+    ev = []
+    reader, writer = await asyncio.open_connection('127.0.0.1', sq.port, limit=1 << 22)
+    got = b''
+    try:
+        writer.write(('CONNECT 127.0.0.1:%d HTTP/1.1\r\nHost: 127.0.0.1:%d\r\n\r\n' % (port, port)).encode())
+        await writer.drain()
+        head = await asyncio.wait_for(reader.readuntil(b'\r\n\r\n'), 8.0)
+        if int(head.split(b' ')[1]) != 200:
+            return None
+        await asyncio.wait_for(st['ready'].wait(), 5.0)
+        sent = 0
+        blob = rnd.randbytes(65536)
+        for _ in range(200):                            # until nothing moves any more: every buffer on the way is full
+            writer.write(blob)
+            sent += len(blob)
+            try:
+                await asyncio.wait_for(writer.drain(), 0.3)
+            except asyncio.TimeoutError:
+                break
+        ev.append({'e': 'Wrote', 'd': 'c2s', 'n': sent})
+        await asyncio.sleep(0.2)
+        Y = rnd.randbytes(rnd.choice([1, 700, 5000, 40000]))
+        os.kill(sq.proc.pid, signal.SIGSTOP)
+        try:
+            sw = st['writer']
+            sw.write(Y)
+            await asyncio.sleep(0.05)                   # Y is in Squid's socket before the reset follows
+            ev.append({'e': 'Wrote', 'd': 's2c', 'n': len(Y)})
+            ev.append({'e': 'Closed', 'side': 's'})
+            sw.close()      # plain close(): unread input makes the kernel answer with RST
+            await asyncio.sleep(0.1)
+        finally:
+            os.kill(sq.proc.pid, signal.SIGCONT)
+        eof = False
+        try:
+            while True:
+                d = await asyncio.wait_for(reader.read(65536), 6.0)
+                if not d:
+                    eof = True
+                    break
+                got += d
+        except (asyncio.TimeoutError, ConnectionError, OSError):
+            pass
+        ev.append({'e': 'Received', 'd': 's2c', 'len': len(got), 'intact': Y.startswith(got), 'eof': eof})
+    except (asyncio.TimeoutError, ConnectionError, OSError, asyncio.IncompleteReadError):
+        return None
+    finally:
+        try:
+            os.kill(sq.proc.pid, signal.SIGCONT)
+        except OSError:
+            pass
+        writer.close()
+        server.close()
+    return {'ev': ev, 'ops': ['blocked-reset'], 'csent': sent, 'ssent': len(Y), 'early': False}
+
+
 def run(ctx):
     tree = squidctl.ensure_binary(ctx)
     scens, res = escen.tlc_scenarios(ctx, os.path.join(SPEC, 'TunnelImpl.tla'), os.path.join(SPEC, 'MC_TunnelImpl.cfg'), key=None)
@@ -150,6 +224,15 @@ def run(ctx):
             coros = [realise(ctx, sq, i, s, random.Random(ctx.seed * 100003 + i)) for i, s in enumerate(seqs * reps)]
             return await escen.gather_limited(coros, limit=8)
         out = [o for o in asyncio.run(main()) if o]
+
+        async def resets():
+            res = []
+            for i in range(10 if ctx.thorough else 3):          # one at a time: the whole proxy is stopped for a moment
+                res.append(await realise_reset(ctx, sq, 900000 + i, random.Random(ctx.seed * 31 + i)))
+            return res
+        rs = [o for o in asyncio.run(resets()) if o]
+        ctx.cov['abortive_close_with_blocked_peer_scenarios'] = len(rs)
+        out += rs
         if not sq.alive():
             ctx.violation('squid exited during the run', {'kind': 'exit', 'log': sq.tail_log()})
     finally:
@@ -164,5 +247,5 @@ def run(ctx):
     for o in out[:2]:
         ctx.sample(o)
     ctx.cov['rule'] = ('operation sequences = peer-visible words (client/server writes, one close) of all interleavings explored by TLC on TunnelImpl.tla (3 writes per side); '
-                       'realised with random binary payloads 1 B..300 KB, optional early bytes in the CONNECT segment; what each side received is validated by TLC against Tunnel.tla. '
+                       'realised with random binary payloads 1 B..300 KB, optional early bytes in the CONNECT segment; plus the abortive close of a server whose peer direction is blocked (Squid finds the last bytes and the reset together); what each side received is validated by TLC against Tunnel.tla. '
                        'Non-trivial = distinct (sequence, sizes).')
